@@ -150,8 +150,8 @@ def check_partitions(rep, prog):
     # ---- Numerics.part -------------------------------------------------------------------------------------------------------
     pf = prog.func(NUM, 'part')
     tp = ast.unparse(pf)
-    okp = has(tp, 'if not n * minval <= x <= n * maxval:\n        return') and (has(tp, 'elif n == 0:\n        yield []') or has(tp, 'if n == 0:\n        yield []')) and \
-        has(tp, 'for val in range(minval, maxval + 1):\n            for p in part(x - val, n - 1, val, maxval):\n                yield ([val] + p)')
+    # (canonical form after the normalisation pass: the pruning test guards the whole body)
+    okp = has(tp, 'if n * minval <= x <= n * maxval:\n    if n == 0:\n        yield []\n    else:\n        for val in range(minval, maxval + 1):\n            for p in part(x - val, n - 1, val, maxval):\n                yield ([val] + p)')
     rep.ob('R-TPL', 'Numerics.part recursion', okp, 'non-decreasing entries (next minimum = current value), remaining sum x - val over n - 1 entries, pruned by n*min <= x <= n*max', prog.mod(NUM).rel, pf.lineno,
            what='every multiset of n values in [min,max] with sum x is produced exactly once')
     cp = prog.func(NUM, 'cached_part')
